@@ -1,7 +1,327 @@
-//! C04 — stub (monitor not built yet)
-use crate::run::{Ctx, Report, Stats};
-pub fn run(_ctx: &Ctx) -> Report {
-    let mut r = Report::new(Stats::default(), "not built");
-    r.inconclusive.push("monitor-not-built".into());
-    r
+//! C04 — a banded matrix behaves exactly like the dense matrix with the same band.
+use crate::fl::{self, U};
+use crate::model::{exact_det_rank_inv, vec_to_ohsl, DM};
+use crate::mon::c01::{kappa_exact, mag_crat, mag_rat, KMAX};
+use crate::mon::common::*;
+use crate::rat::{CRat, Exact, Rat};
+use crate::rng::Rng;
+use crate::run::{catch, par_run, Ctx, Outcome, Report, Stats};
+use ohsl::{Banded, Cmplx, Vector};
+
+const TAG: u64 = 0xC04;
+fn tau(n: usize) -> f64 { 4096.0 * n as f64 * U }
+pub const CLASSES: [&str; 6] = ["positive", "mixed-sign", "negative-diagonal", "zero-diagonal", "tiny-subdiagonal", "zeros-in-band"];
+
+fn inband(i: usize, j: usize, m1: usize, m2: usize) -> bool { j <= i + m2 && i <= j + m1 }
+
+/// in-band integer/dyadic values (as Rat) of the given class; zeros elsewhere
+pub fn gen_band(rng: &mut Rng, n: usize, m1: usize, m2: usize, class: usize) -> DM<Rat> {
+    DM::from_fn(n, n, |i, j| {
+        if !inband(i, j, m1, m2) { return Rat::ZERO; }
+        match class {
+            0 => Rat::int(rng.int(1, 9)),
+            1 => Rat::int(rng.nzint(9)),
+            2 => if i == j { Rat::int(-rng.int(1, 9)) } else { Rat::int(rng.int(-9, 9)) },
+            3 => if i == j && m1 >= 1 { Rat::ZERO } else { Rat::int(rng.nzint(9)) },
+            4 => if i == j { Rat::int(-rng.int(1, 4)) } else if i == j + 1 { Rat::new(rng.int(1, 3) as i128, 1 << 30) } else { Rat::int(rng.int(-4, 4)) },
+            _ => if rng.chance(0.3) { Rat::ZERO } else { Rat::int(rng.nzint(9)) },
+        }
+    })
+}
+
+fn to_c(d: &DM<Rat>, rng: &mut Rng, m1: usize, m2: usize) -> DM<CRat> {
+    DM::from_fn(d.r, d.c, |i, j| if inband(i, j, m1, m2) && !d.a[i][j].is_zero() { CRat::new(d.a[i][j], Rat::int(rng.int(-3, 3))) } else { CRat::default() })
+}
+
+fn build<E: Exact>(d: &DM<E>, m1: usize, m2: usize, pad: E) -> Banded<E> {
+    let n = d.r;
+    let mut b = Banded::<E>::new(n, m1, m2, pad);
+    for i in 0..n { for j in 0..n { if inband(i, j, m1, m2) { b[(i, j)] = d.a[i][j]; } } }
+    b
+}
+
+fn band_eq<E: Exact>(b: &Banded<E>, d: &DM<E>, m1: usize, m2: usize) -> bool {
+    if b.size() != d.r || b.size_below() != m1 || b.size_above() != m2 { return false; }
+    matches!(catch(|| { for i in 0..d.r { for j in 0..d.r { if inband(i, j, m1, m2) && b[(i, j)] != d.a[i][j] { return false; } } } true }), Outcome::Ok(true))
+}
+
+fn judge_exact<E: Exact>(st: &mut Stats, rng: &mut Rng, class: &str, d: &DM<E>, m1: usize, m2: usize, pads: (E, E), rv: impl Fn(&mut Rng) -> E) {
+    let n = d.r;
+    st.next_case();
+    let desc = || format!("T={} n={} m1={} m2={} class={} pads=({:?},{:?}) dense={}", E::NAME, n, m1, m2, class, pads.0, pads.1, d.show());
+    let b1 = build(d, m1, m2, pads.0);
+    let b2 = build(d, m1, m2, pads.1);
+    let t = format!("{}", E::NAME);
+    // element access
+    st.eval();
+    for i in 0..n { for j in 0..n {
+        let r = catch(|| b1[(i, j)]);
+        if inband(i, j, m1, m2) {
+            if !matches!(r, Outcome::Ok(v) if v == d.a[i][j]) { st.violation(&format!("C04:index:{}:wrong-value", t), format!("B[({},{})] {:?} expected {:?}; {}", i, j, r, d.a[i][j], desc())); }
+        } else if !r.is_panic() { st.violation(&format!("C04:index:{}:out-of-band-accepted", t), format!("B[({},{})] returned {:?} for an out-of-band position; {}", i, j, r, desc())); }
+    } }
+    // product
+    let v: Vec<E> = (0..n).map(|_| rv(rng)).collect();
+    let want = d.mulvec(&v);
+    let vv = vec_to_ohsl(&v);
+    let mut prods = vec![];
+    for (k, b) in [&b1, &b2].iter().enumerate() {
+        st.eval();
+        match catch(|| *b * &vv) {
+            Outcome::Overflow => st.count("skipped:rat-overflow"),
+            Outcome::Ok(p) => { if p.vec != want { st.violation(&format!("C04:mulvec:{}:wrong-value", t), format!("pad#{} B*v = {:?} expected {:?}; v={:?}; {}", k, p.vec, want, v, desc())); } prods.push(p.vec); }
+            o => st.violation(&format!("C04:mulvec:{}:panic", t), format!("pad#{} B*v {}; {}", k, o.describe(), desc())),
+        }
+    }
+    if prods.len() == 2 && prods[0] != prods[1] { st.violation(&format!("C04:mulvec:{}:padding-dependent", t), desc()); }
+    st.eval();
+    if let Outcome::Ok(p) = catch(|| b1.clone() * vv.clone()) { if p.vec != want { st.violation(&format!("C04:mulvec-owned:{}:wrong-value", t), desc()); } }
+    // determinant and solve
+    let (det, rank, inv) = match catch(|| exact_det_rank_inv(d)) { Outcome::Ok(x) => x, _ => { st.count("skipped:rat-overflow-in-model"); return; } };
+    let mut dets = vec![];
+    for (k, b) in [&b1, &b2].iter().enumerate() {
+        st.eval();
+        match catch(|| b.det()) {
+            Outcome::Overflow => st.count("skipped:rat-overflow"),
+            Outcome::Ok(x) => { if x != det { st.violation(&format!("C04:det:{}:{}", t, if rank < n { "singular-nonzero" } else { "wrong-value" }), format!("pad#{} det = {:?} exact {:?}; {}", k, x, det, desc())); } dets.push(x); }
+            o => st.violation(&format!("C04:det:{}:{}", t, if rank < n { "singular-panic" } else { "nonsingular-panic" }), format!("pad#{} det {} (exact {:?}); {}", k, o.describe(), det, desc())),
+        }
+    }
+    if dets.len() == 2 && dets[0] != dets[1] { st.violation(&format!("C04:det:{}:padding-dependent", t), desc()); }
+    if let Some(inv) = inv {
+        let rhs: Vec<E> = (0..n).map(|_| rv(rng)).collect();
+        if let Outcome::Ok(xt) = catch(|| inv.mulvec(&rhs)) {
+            let rr = vec_to_ohsl(&rhs);
+            let mut sols = vec![];
+            for (k, b) in [&b1, &b2].iter().enumerate() {
+                st.eval();
+                match catch(|| b.solve(&rr)) {
+                    Outcome::Overflow => st.count("skipped:rat-overflow"),
+                    Outcome::Ok(x) => { if x.vec != xt { st.violation(&format!("C04:solve:{}:wrong-solution", t), format!("pad#{} solve = {:?} exact {:?}; rhs={:?}; {}", k, x.vec, xt, rhs, desc())); } sols.push(x.vec); }
+                    o => st.violation(&format!("C04:solve:{}:refused-nonsingular", t), format!("pad#{} solve {} (det {:?}); rhs={:?}; {}", k, o.describe(), det, rhs, desc())),
+                }
+            }
+            if sols.len() == 2 && sols[0] != sols[1] { st.violation(&format!("C04:solve:{}:padding-dependent", t), desc()); }
+            if !band_eq(&b1, d, m1, m2) { st.violation(&format!("C04:solve:{}:mutated-matrix", t), desc()); }
+        }
+    }
+    // arithmetic (17 impls) judged on the in-band entries
+    let o = DM::<E>::from_fn(n, n, |i, j| if inband(i, j, m1, m2) { rv(rng) } else { E::zero() });
+    let ob = build(&o, m1, m2, pads.1);
+    let s = { let x = rv(rng); if x.is_zero_e() { E::from_int(2) } else { x } };
+    let map = |f: &dyn Fn(E, E) -> E| DM::<E>::from_fn(n, n, |i, j| if inband(i, j, m1, m2) { f(d.a[i][j], o.a[i][j]) } else { E::zero() });
+    let mut chk = |st: &mut Stats, name: &str, out: Outcome<Banded<E>>, want: DM<E>| {
+        st.eval();
+        match out {
+            Outcome::Overflow => st.count("skipped:rat-overflow"),
+            Outcome::Ok(b) => if !band_eq(&b, &want, m1, m2) { st.violation(&format!("C04:{}:{}:wrong-result", name, t), format!("{} other={} s={:?}; {}", name, o.show(), s, desc())); },
+            oo => st.violation(&format!("C04:{}:{}:panic", name, t), format!("{} {}; {}", name, oo.describe(), desc())),
+        }
+    };
+    chk(st, "neg(&B)", catch(|| -&b1), map(&|a, _| -a));
+    chk(st, "neg(B)", catch(|| -b1.clone()), map(&|a, _| -a));
+    chk(st, "add(&B,&B)", catch(|| &b1 + &ob), map(&|a, b| a + b));
+    chk(st, "add(B,B)", catch(|| b1.clone() + ob.clone()), map(&|a, b| a + b));
+    chk(st, "sub(&B,&B)", catch(|| &b1 - &ob), map(&|a, b| a - b));
+    chk(st, "sub(B,B)", catch(|| b1.clone() - ob.clone()), map(&|a, b| a - b));
+    chk(st, "mul(&B,s)", catch(|| &b1 * s), map(&|a, _| a * s));
+    chk(st, "mul(B,s)", catch(|| b1.clone() * s), map(&|a, _| a * s));
+    chk(st, "div(&B,s)", catch(|| &b1 / s), map(&|a, _| a / s));
+    chk(st, "div(B,s)", catch(|| b1.clone() / s), map(&|a, _| a / s));
+    chk(st, "add_assign(&B)", catch(|| { let mut x = b1.clone(); x += &ob; x }), map(&|a, b| a + b));
+    chk(st, "add_assign(B)", catch(|| { let mut x = b1.clone(); x += ob.clone(); x }), map(&|a, b| a + b));
+    chk(st, "sub_assign(&B)", catch(|| { let mut x = b1.clone(); x -= &ob; x }), map(&|a, b| a - b));
+    chk(st, "sub_assign(B)", catch(|| { let mut x = b1.clone(); x -= ob.clone(); x }), map(&|a, b| a - b));
+    chk(st, "mul_assign(s)", catch(|| { let mut x = b1.clone(); x *= s; x }), map(&|a, _| a * s));
+    chk(st, "div_assign(s)", catch(|| { let mut x = b1.clone(); x /= s; x }), map(&|a, _| a / s));
+    chk(st, "add_assign(c)", catch(|| { let mut x = b1.clone(); x += s; x }), map(&|a, _| a + s));
+    chk(st, "sub_assign(c)", catch(|| { let mut x = b1.clone(); x -= s; x }), map(&|a, _| a - s));
+    // fill_band for every band
+    for band in -(m1 as isize)..=(m2 as isize) {
+        let want = DM::<E>::from_fn(n, n, |i, j| if inband(i, j, m1, m2) { if j as isize - i as isize == band { s } else { d.a[i][j] } } else { E::zero() });
+        chk(st, "fill_band", catch(|| { let mut x = b1.clone(); x.fill_band(band, s); x }), want);
+    }
+    st.count(&format!("cases:{}:{}", t, class));
+    st.set_insert("triples", format!("{},{},{}", n, m1, m2));
+    let mut h = hash_str(E::NAME) ^ hash_str(class) ^ ((n * 100 + m1 * 10 + m2) as u64);
+    for row in &d.a { for x in row { h = hmix(h, x.hash_u64()); } }
+    if n >= 2 { st.nontrivial(h); }
+    st.sample(|| desc());
+}
+
+fn judge_f64(st: &mut Stats, rng: &mut Rng, class: &str, d: &DM<Rat>, m1: usize, m2: usize) {
+    let n = d.r;
+    st.next_case();
+    let a: Vec<Vec<f64>> = match d.a.iter().map(|r| r.iter().map(|v| v.as_exact_f64()).collect::<Option<Vec<f64>>>()).collect() { Some(x) => x, None => return };
+    let pads = (rng.int(-9, 9) as f64 * 1.5, if rng.chance(0.2) { 1e30 } else { rng.int(-99, 99) as f64 });
+    let desc = || format!("T=f64 n={} m1={} m2={} class={} pads={:?} dense={:?}", n, m1, m2, class, pads, a);
+    let mk = |pad: f64| { let mut b = Banded::<f64>::new(n, m1, m2, pad); for i in 0..n { for j in 0..n { if inband(i, j, m1, m2) { b[(i, j)] = a[i][j]; } } } b };
+    let (b1, b2) = (mk(pads.0), mk(pads.1));
+    // product: integer data => exact
+    let v: Vec<f64> = (0..n).map(|_| rng.int(-9, 9) as f64).collect();
+    let want: Vec<f64> = (0..n).map(|i| (0..n).map(|j| a[i][j] * v[j]).sum()).collect();
+    let vv = Vector::create(v.clone());
+    let exact_prod = class != "tiny-subdiagonal";
+    let mut prods = vec![];
+    for b in [&b1, &b2] {
+        st.eval();
+        match catch(|| b * &vv) {
+            Outcome::Ok(p) => {
+                let good = if exact_prod { p.vec == want } else { p.vec.iter().zip(&want).all(|(x, y)| (x - y).abs() <= 64.0 * U * (1.0 + y.abs()) * 100.0) };
+                if !good { st.violation("C04:mulvec:f64:wrong-value", format!("B*v = {:?} expected {:?}; v={:?}; {}", p.vec, want, v, desc())); }
+                prods.push(p.vec.iter().map(|x| x.to_bits()).collect::<Vec<_>>());
+            }
+            o => st.violation("C04:mulvec:f64:panic", format!("{}; {}", o.describe(), desc())),
+        }
+    }
+    if prods.len() == 2 && prods[0] != prods[1] { st.violation("C04:mulvec:f64:padding-dependent", desc()); }
+    let (det, rank, _inv) = match catch(|| exact_det_rank_inv(d)) { Outcome::Ok(x) => x, _ => { st.count("skipped:rat-overflow-in-model"); return; } };
+    let mut dets = vec![];
+    let kappa = if rank == n { kappa_exact(d, mag_rat) } else { None };
+    for b in [&b1, &b2] {
+        st.eval();
+        match catch(|| b.det()) {
+            Outcome::Ok(x) => {
+                dets.push(x.to_bits());
+                if rank < n {
+                    let had: f64 = a.iter().map(|r| r.iter().map(|v| v * v).sum::<f64>().sqrt()).product();
+                    let bound = n as f64 * tau(n) * had;
+                    if !x.is_finite() { st.violation("C04:det:f64:singular-nonfinite", format!("det = {} on exactly singular matrix; {}", x, desc())); }
+                    else if !(x.abs() <= bound) { st.violation("C04:det:f64:singular-large", format!("det = {:e} bound {:e}; {}", x, bound, desc())); }
+                } else if let Some(k) = kappa { if k <= KMAX {
+                    let dex = det.to_f64();
+                    let bound = n as f64 * k * tau(n) * dex.abs();
+                    st.max("f64:det_err_over_bound", (x - dex).abs() / bound);
+                    if !((x - dex).abs() <= bound) { st.violation("C04:det:f64:inaccurate", format!("det = {:e} exact {:e} bound {:e}; {}", x, dex, bound, desc())); }
+                } }
+            }
+            o => st.violation("C04:det:f64:panic", format!("{}; {}", o.describe(), desc())),
+        }
+    }
+    if dets.len() == 2 && dets[0] != dets[1] { st.violation("C04:det:f64:padding-dependent", format!("det bits {:x?}; {}", dets, desc())); }
+    if let Some(k) = kappa { if k <= KMAX {
+        let rhs: Vec<f64> = (0..n).map(|_| rng.int(-9, 9) as f64).collect();
+        let rr = Vector::create(rhs.clone());
+        let mut sols = vec![];
+        for b in [&b1, &b2] {
+            st.eval();
+            match catch(|| b.solve(&rr)) {
+                Outcome::Ok(x) => {
+                    let x = x.vec;
+                    if x.len() != n || !fl::all_finite(&x) { st.violation("C04:solve:f64:nonfinite-or-length", format!("solve = {:?}; rhs={:?}; {}", x, rhs, desc())); continue; }
+                    let (r, an, xn, bn) = fl::residual_real(&a, &x, &rhs);
+                    let eta = fl::backward_error(r, an, xn, bn);
+                    st.max("f64:max_eta_over_tau", eta / tau(n));
+                    if !(eta <= tau(n)) { st.violation("C04:solve:f64:backward-error", format!("backward error {:e} > {:e}; x={:?} rhs={:?}; {}", eta, tau(n), x, rhs, desc())); }
+                    sols.push(x.iter().map(|v| v.to_bits()).collect::<Vec<_>>());
+                }
+                o => st.violation("C04:solve:f64:refused-nonsingular", format!("{}; rhs={:?}; {}", o.describe(), rhs, desc())),
+            }
+        }
+        if sols.len() == 2 && sols[0] != sols[1] { st.violation("C04:solve:f64:padding-dependent", desc()); }
+        st.count(&format!("cases:f64:{}:solved", class));
+    } else { st.count("skipped:float-kappa-too-large"); } }
+    st.count(&format!("cases:f64:{}", class));
+    let mut h = hash_str("f64") ^ hash_str(class) ^ ((n * 100 + m1 * 10 + m2) as u64);
+    for row in &d.a { for x in row { h = hmix(h, x.hash_u64()); } }
+    if n >= 2 { st.nontrivial(h); }
+}
+
+fn judge_cmplx(st: &mut Stats, rng: &mut Rng, class: &str, d: &DM<CRat>, m1: usize, m2: usize) {
+    let n = d.r;
+    st.next_case();
+    let a: Vec<Vec<Cmplx>> = match d.a.iter().map(|r| r.iter().map(|v| Some(Cmplx::new(v.re.as_exact_f64()?, v.im.as_exact_f64()?))).collect::<Option<Vec<Cmplx>>>()).collect() { Some(x) => x, None => return };
+    let pads = (Cmplx::new(rng.int(-9, 9) as f64, rng.int(-9, 9) as f64), Cmplx::new(rng.int(-99, 99) as f64, 1e20));
+    let desc = || format!("T=Cmplx n={} m1={} m2={} class={} pads={:?} dense={:?}", n, m1, m2, class, pads, a);
+    let mk = |pad: Cmplx| { let mut b = Banded::<Cmplx>::new(n, m1, m2, pad); for i in 0..n { for j in 0..n { if inband(i, j, m1, m2) { b[(i, j)] = a[i][j]; } } } b };
+    let (b1, b2) = (mk(pads.0), mk(pads.1));
+    let (det, rank, _) = match catch(|| exact_det_rank_inv(d)) { Outcome::Ok(x) => x, _ => { st.count("skipped:rat-overflow-in-model"); return; } };
+    let kappa = if rank == n { kappa_exact(d, mag_crat) } else { None };
+    let bits = |v: &[Cmplx]| v.iter().map(|z| (z.real.to_bits(), z.imag.to_bits())).collect::<Vec<_>>();
+    let mut dets = vec![];
+    for b in [&b1, &b2] {
+        st.eval();
+        match catch(|| b.det()) {
+            Outcome::Ok(x) => {
+                dets.push((x.real.to_bits(), x.imag.to_bits()));
+                if rank < n { if !(x.real.is_finite() && x.imag.is_finite()) { st.violation("C04:det:Cmplx:singular-nonfinite", format!("det = {:?}; {}", x, desc())); } }
+                else if let Some(k) = kappa { if k <= KMAX {
+                    let dex = Cmplx::new(det.re.to_f64(), det.im.to_f64());
+                    let bound = n as f64 * k * tau(n) * fl::cabs(dex);
+                    st.max("Cmplx:det_err_over_bound", fl::cabs(x - dex) / bound);
+                    if !(fl::cabs(x - dex) <= bound) { st.violation("C04:det:Cmplx:inaccurate", format!("det = {:?} exact {:?}; {}", x, dex, desc())); }
+                } }
+            }
+            o => st.violation("C04:det:Cmplx:panic", format!("{}; {}", o.describe(), desc())),
+        }
+    }
+    if dets.len() == 2 && dets[0] != dets[1] { st.violation("C04:det:Cmplx:padding-dependent", desc()); }
+    if let Some(k) = kappa { if k <= KMAX {
+        let rhs: Vec<Cmplx> = (0..n).map(|_| Cmplx::new(rng.int(-9, 9) as f64, rng.int(-9, 9) as f64)).collect();
+        let rr = Vector::create(rhs.clone());
+        let mut sols = vec![];
+        for b in [&b1, &b2] {
+            st.eval();
+            match catch(|| b.solve(&rr)) {
+                Outcome::Ok(x) => {
+                    let x = x.vec;
+                    if x.len() != n || !fl::all_finite_c(&x) { st.violation("C04:solve:Cmplx:nonfinite-or-length", format!("solve = {:?}; rhs={:?}; {}", x, rhs, desc())); continue; }
+                    let (r, an, xn, bn) = fl::residual_cmplx(&a, &x, &rhs);
+                    let eta = fl::backward_error(r, an, xn, bn);
+                    st.max("Cmplx:max_eta_over_tau", eta / tau(n));
+                    if !(eta <= tau(n)) { st.violation("C04:solve:Cmplx:backward-error", format!("backward error {:e} > {:e}; x={:?} rhs={:?}; {}", eta, tau(n), x, rhs, desc())); }
+                    sols.push(bits(&x));
+                }
+                o => st.violation("C04:solve:Cmplx:refused-nonsingular", format!("{}; rhs={:?}; {}", o.describe(), rhs, desc())),
+            }
+        }
+        if sols.len() == 2 && sols[0] != sols[1] { st.violation("C04:solve:Cmplx:padding-dependent", desc()); }
+        // product (Gaussian-integer data: exact)
+        let v: Vec<Cmplx> = (0..n).map(|_| Cmplx::new(rng.int(-5, 5) as f64, rng.int(-5, 5) as f64)).collect();
+        if class != "tiny-subdiagonal" {
+            let want: Vec<Cmplx> = (0..n).map(|i| { let mut s = Cmplx::new(0.0, 0.0); for j in 0..n { s += a[i][j] * v[j]; } s }).collect();
+            st.eval();
+            match catch(|| &b1 * &Vector::create(v.clone())) { Outcome::Ok(p) => if bits(&p.vec) != bits(&want) && p.vec != want { st.violation("C04:mulvec:Cmplx:wrong-value", format!("B*v={:?} expected {:?}; v={:?}; {}", p.vec, want, v, desc())); }, o => st.violation("C04:mulvec:Cmplx:panic", format!("{}; {}", o.describe(), desc())) }
+        }
+    } else { st.count("skipped:float-kappa-too-large"); } }
+    st.count(&format!("cases:Cmplx:{}", class));
+    let mut h = hash_str("Cmplx") ^ hash_str(class) ^ ((n * 100 + m1 * 10 + m2) as u64);
+    for row in &d.a { for x in row { h = hmix(h, x.hash_u64()); } }
+    if n >= 2 { st.nontrivial(h); }
+}
+
+pub fn triples() -> Vec<(usize, usize, usize)> {
+    let mut t = vec![];
+    for n in 1..=10usize { for m1 in 0..n { for m2 in 0..n { t.push((n, m1, m2)); } } }
+    t
+}
+
+pub fn run(ctx: &Ctx) -> Report {
+    let tr = triples();
+    let reps = ctx.vol(3, 120);
+    let units = tr.len() as u64 * 6;
+    let stats = par_run(ctx, TAG, units, |u, rng, st| {
+        let (n, m1, m2) = tr[(u / 6) as usize];
+        let class = (u % 6) as usize;
+        for _ in 0..reps {
+            let d = gen_band(rng, n, m1, m2, class);
+            let pads = (Rat::int(rng.int(-9, 9)), Rat::new(rng.int(-99, 99) as i128, 7));
+            judge_exact::<Rat>(st, rng, CLASSES[class], &d, m1, m2, pads, |r| Rat::int(r.int(-9, 9)));
+            let dc = to_c(&d, rng, m1, m2);
+            let padc = (CRat::new(pads.0, Rat::int(3)), CRat::new(pads.1, Rat::int(-5)));
+            judge_exact::<CRat>(st, rng, CLASSES[class], &dc, m1, m2, padc, |r| CRat::new(Rat::int(r.int(-5, 5)), Rat::int(r.int(-5, 5))));
+            judge_f64(st, rng, CLASSES[class], &d, m1, m2);
+            judge_cmplx(st, rng, CLASSES[class], &dc, m1, m2);
+        }
+    });
+    let mut rep = Report::new(stats,
+        "all 385 triples (n,m1,m2), 1<=n<=10, 0<=m1,m2<n x 6 value classes (positive, mixed sign, negative diagonal, zero diagonal with nonzero sub-diagonal, tiny 2^-30 sub-diagonal under O(1) negative diagonal, zeros inside the band) x {Rat, CRat, f64, Complex<f64>} x two different padding fills, 3 (quick)/120 (thorough) random draws each; per case: every (i,j) access, B*v, det, solve, 18 arithmetic forms, fill_band for every band. Non-trivial: n>=2; distinct = distinct (type,class,triple,values) hashes");
+    rep.assumptions = vec![
+        "float data are integers/dyadics, so exact determinant, nonsingularity and kappa_inf come from the Rat/CRat model; solve/det demands only when kappa_inf <= 1e8".into(),
+        "solve on exactly singular matrices is unconstrained".into(),
+        "backward-error threshold 4096*n*u".into(),
+    ];
+    rep.min_nontrivial = 2000;
+    rep.extra.set("exhaustive_parts", crate::json::J::Arr(vec![crate::json::J::s("(n,m1,m2) triples with 1<=n<=10, 0<=m1,m2<n: all 385"), crate::json::J::s("every (i,j) in the n x n square per case"), crate::json::J::s("every band offset for fill_band")]));
+    rep
 }
